@@ -147,14 +147,14 @@ def program_minimizer(check, get_case, with_prog, max_evals=120):
     return minimizer
 
 
-def check_source_program(src, vals, ws, *, S=S0, unchecked=False, vm_budget=1_500_000, ref_budget=150_000):
+def check_source_program(src, vals, ws, *, S=S0, unchecked=False, vm_budget=1_500_000, ref_budget=150_000, ref_stack=S0):
     """Differential check for a program given as source text: the reference side goes through the
     independent parser and typechecker (ref/parse.py, ref/types.py).  -> Verdict (ref, run filled in)."""
     from ref.parse import parse_program
     from ref.types import check_program
     prog = parse_program(src)
     check_program(prog)
-    ref = reference_for(prog, vals, ws, checked=not unchecked, budget=ref_budget, stack_words=S0)
+    ref = reference_for(prog, vals, ws, checked=not unchecked, budget=ref_budget, stack_words=ref_stack)
     if ref.kind == 'budget':
         raise Discard('reference budget')
     if ref.kind.startswith('undefined'):
